@@ -7,7 +7,9 @@ Record sd_case := mkSdCase {
   sd_obs : list Z;                 (* final observables of the implementation *)
   sd_trace : list (Z * Z);         (* (thread, label) at every yield the controller granted *)
   sd_infeasible : bool;            (* the thread whose turn it was could not reach a yield *)
-  sd_finished : bool               (* every thread returned *)
+  sd_finished : bool;              (* every thread returned *)
+  sd_init : list Z;                (* scenario 4: 1 = healthy, 0 = ejected with an elapsed window, per backend *)
+  sd_client : list Z               (* scenario 4: the client address the hash strategies see *)
 }.
 
 Definition model_run (k : sd_case) : list Z * list (Z * Z) :=
@@ -20,7 +22,9 @@ Definition s3_ops (k : sd_case) : list (Z * Z) :=
   map (fun ik => (snd ik, if Z.eqb (snd ik) 2 then 1 else 10 + fst ik)) (combine (map Z.of_nat (seq 0 (length (sd_kinds k)))) (sd_kinds k)).
 
 Definition model_run' (k : sd_case) : list Z * list (Z * Z) :=
-  if Z.eqb (sd_scenario k) 3 then s3_run (s3_ops k) (sd_schedule k) else model_run k.
+  if Z.eqb (sd_scenario k) 3 then s3_run (s3_ops k) (sd_schedule k)
+  else if Z.eqb (sd_scenario k) 4 then s4_run (sd_n k) (sd_init k) (sd_client k) (sd_kinds k) (sd_schedule k)
+  else model_run k.
 
 Fixpoint trace_diff (i : Z) (a b : list (Z * Z)) : Z :=
   match a, b with
@@ -32,6 +36,7 @@ Fixpoint trace_diff (i : Z) (a b : list (Z * Z)) : Z :=
 Definition prop_ok (k : sd_case) : bool :=
   if Z.eqb (sd_scenario k) 1 then s1_ok (sd_obs k)
   else if Z.eqb (sd_scenario k) 2 then s2_ok (sd_max k) (sd_obs k)
+  else if Z.eqb (sd_scenario k) 4 then s4_ok (sd_init k) (sd_kinds k) (sd_obs k)
   else s3_ok (s3_ops k) (sd_obs k).
 
 (* a schedule interleaves when it is not a concatenation of the threads' runs *)
@@ -44,4 +49,4 @@ Definition eval_sd_case (k : sd_case) : list Z :=
   if sd_infeasible k then [-1; -1; 1; b2z (sd_finished k); 0]
   else
   [ first_diff obs (sd_obs k); trace_diff 0 trace (sd_trace k); b2z (prop_ok k); b2z (sd_finished k);
-    b2z (zlen (sd_kinds k) + sd_n k <=? switches (sd_schedule k)) ].
+    b2z (zlen (sd_kinds k) + (if Z.eqb (sd_scenario k) 4 then 0 else sd_n k) <=? switches (sd_schedule k)) ].
